@@ -88,6 +88,7 @@ type parser struct {
 type labelledContinue struct {
 	label string
 	idx   file.Idx
+	scope *scope // labels do not cross function boundaries
 }
 
 // Parser is implemented by types which can parse JavaScript Code.
